@@ -481,6 +481,8 @@ static void runL3(const plan::Plan& p, hz::RunResult* res, bool verbose) {
     delete messageMap;
     delete scanHelper;
     res->counters["l3.orderly_shutdown"]++;
+    if (c.num("lsan", 0)) hz::g_leakCheck = true;
+    if (getenv("SIM_TEST_LEAK")) { volatile char* lost = new char[1234]; lost[0] = 1; lost = nullptr; }   // self test of the leak check
   }
   checkL3(p, rd, res);
   res->counters["l3.client_commands"] += rd.cmds.size();
